@@ -129,6 +129,35 @@ func FMA(g *G, n int) []Program {
 			out = append(out, g.Flush("fma"))
 		}
 	}
+	// exactly zero sums of a zero product and a zero addend: every mode x sign of the product x sign of u x which
+	// factor is the zero x every receiver (fresh, x, y, u): the IEEE sign rule, the same whatever the receiver is
+	for m := 0; m < 6; m++ {
+		for sg := 0; sg < 8; sg++ {
+			for _, z := range []string{"r2", "r0", "r1", "r3"} {
+				if g.R.Intn(2) == 0 && z != "r3" {
+					continue
+				}
+				xzero := sg&4 != 0
+				if xzero {
+					g.LoadSpecial("r0", "zero", sg&1 != 0, g.Pick(0, 5), g.Mode())
+					g.Load("r1", false, g.Digits(1+g.R.Intn(5)), int64(g.R.Intn(5)), 0, g.Mode())
+				} else {
+					g.Load("r0", sg&1 != 0, g.Digits(1+g.R.Intn(5)), int64(g.R.Intn(5)), 0, g.Mode())
+					g.LoadSpecial("r1", "zero", false, g.Pick(0, 5), g.Mode())
+				}
+				g.LoadSpecial("r3", "zero", sg&2 != 0, g.Pick(0, 5, 9), g.Mode())
+				if z == "r2" {
+					g.Receiver("r2", g.Pick(0, 4), m)
+				} else {
+					g.Emit(M{"op": "SetMode", "z": z, "m": m})
+				}
+				g.Emit(M{"op": "FMA", "z": z, "x": "r0", "y": "r1", "u": "r3"})
+				if g.Pending() >= 120 {
+					out = append(out, g.Flush("fma"))
+				}
+			}
+		}
+	}
 	if g.Pending() > 0 {
 		out = append(out, g.Flush("fma"))
 	}
